@@ -157,6 +157,10 @@ func (d *Def) makeDefineArgVariables(
 			return argVariables, false, err
 		}
 
+		if argT == nil {
+			break
+		}
+
 		if argT.IsTargetIdentifier("end") {
 			p.Unget()
 			return argVariables, false, err
